@@ -57,6 +57,10 @@ impl SystemTime {
     pub const UNIX_EPOCH: std::time::SystemTime = std::time::UNIX_EPOCH;
     #[allow(clippy::new_ret_no_self)]
     pub fn now() -> std::time::SystemTime {
+        #[cfg(feature = "tokio")]
+        if let Some(ns) = crate::tokio_net::wall_ns() {
+            return std::time::UNIX_EPOCH + Duration::new((ns / 1_000_000_000) as u64, (ns % 1_000_000_000) as u32);
+        }
         match sim::wall_ns() {
             Some(ns) => {
                 std::time::UNIX_EPOCH
